@@ -45,7 +45,8 @@ def explore(ctx):
     ctx.assumptions = ['width scaling is a small-scope argument: correctness for every input is established for w in the listed widths, '
                        'and at 64 bits on the alphabet/closure/lifted inputs only',
                        'oracle: unsigned __int128 arithmetic modulo p_w']
-    ctx.run_step('c01_native', ctx.bins['c01_native'])
+    if 'c01_native' in ctx.bins:
+        ctx.run_step('c01_native', ctx.bins['c01_native'])
     sigs = []
     for w in widths(ctx):
         n = 'c01_w%d' % w
